@@ -14,8 +14,10 @@ THEOREMS = ['C05_spec_ok', 'C05_depinfo_roundtrip', 'C05_depinfo_lossless', 'C05
             'C05_envdep_old_refuted', 'C05_key_injective_modulo_arg_concat', 'C05_arg_concat_refuted', 'C05_arg_string_is_concat',
             'C05_args_injective_guarded',
             'C05_order_insensitive', 'C05_excluded_args_unhashed', 'C05_shape_table', 'C05_shape_table_ok_iff',
-            'C05_accepted_shape']
+            'C05_accepted_shape', 'C05_staticlibs_lookup', 'C05_staticlib_search_order', 'C05_staticlib_alt_spelling_refuted',
+            'C05_staticlib_modifier_hashed']
 ASSUMPTIONS = [
+    'named assumption about rustc (observed with rustc 1.95, unix target): for `-l static[:modifiers]=NAME` the archive bundled is libNAME.a from the FIRST of the `-L native=DIR` / `-L all=DIR` / `-L DIR` directories, in command-line order, that contains it (Model/RustArgs.v rustc_static_pick)',
     'rustc itself is not modelled: that equal inputs give equal rustc outputs is sampled by the e2e leg with rustc 1.95, not proved',
     'BLAKE3 is collision-free on the pre-images compared (the theorems are about the pre-image, the byte string fed to the digest)',
     'file digests are 64 lower-case hex characters (util::hex of a BLAKE3 output); lengths are < 2^56; arguments, variable names and values contain no NUL byte (argv / envp are C strings)',
@@ -343,6 +345,107 @@ def stats_args(case, out):
         return ['malformed']
 
 
+# ------------------------------------------------------------------------------------------------ staticlib
+# which archive is hashed for `-l static=NAME`, against rustc's search order (first -L native=/all=/plain directory in
+# COMMAND-LINE order that holds libNAME.a; observed with rustc 1.95, see Model/RustArgs.v rustc_static_pick)
+
+SL_DIRS = [b'zz_own', b'aa_fallback', b'mm/third', b'own', b'fallback', b'Zcap', b'a']
+SL_NAMES = [b'foo', b'bar']
+SL_MIN_ARGV = [b'--crate-name', b'usesfoo', b'--edition=2021', b'src/lib.rs', b'--crate-type', b'lib',
+               b'--emit=dep-info,metadata,link', b'--out-dir', b'out']
+
+
+def gen_staticlib(rng, n):
+    out = []
+    for _ in range(n):
+        mode = rng.weighted([('plain', 8), ('alt', 1), ('modifier', 1)])
+        dirs = rng.shuffle(SL_DIRS)[:rng.range(1, 4)]
+        if rng.chance(1, 6):
+            dirs.append(rng.choice(dirs))            # the same directory twice
+        files = []
+        dir_specs = []
+        for d in dirs:
+            kind = rng.weighted([(b'native', 6), (b'all', 2), (None, 2), (b'dependency', 1), (b'crate', 1), (b'framework', 1)])
+            dir_specs.append([d, kind if kind is not None else b'-'])
+            for nm in SL_NAMES:
+                if rng.chance(3, 5):
+                    files.append(d + b'/lib' + nm + b'.a')
+                if mode == 'alt' and rng.chance(1, 3):
+                    files.append(d + b'/' + nm + rng.choice([b'.lib', b'.a']))
+        libs = []
+        for _ in range(rng.range(1, 3)):
+            kind = rng.weighted([(b'static', 7), (b'dylib', 1), (None, 1)])
+            if mode == 'modifier' and rng.chance(1, 2):
+                kind = rng.choice([b'static:+whole-archive', b'static:-bundle', b'static:+whole-archive,-bundle'])
+            libs.append([kind if kind is not None else b'-', rng.choice(SL_NAMES)])
+        extra = []
+        for d, kind in dir_specs:
+            v = d if kind == b'-' else kind + b'=' + d
+            extra.append([b'-L' + v] if rng.chance(1, 4) else [b'-L', v])
+        for kind, nm in libs:
+            v = nm if kind == b'-' else kind + b'=' + nm
+            extra.append([b'-l' + v] if rng.chance(1, 4) else [b'-l', v])
+        # -l before/after -L in any interleaving, but the -L among themselves stay in the generated order
+        ls = [e for e in extra if e[0].startswith(b'-l')]
+        Ls = [e for e in extra if e[0].startswith(b'-L')]
+        merged = []
+        while ls or Ls:
+            src = ls if (ls and (not Ls or rng.chance(1, 2))) else Ls
+            merged += src.pop(0)
+        pos = rng.below(len(SL_MIN_ARGV) + 1)
+        if pos in (1, 5, 8):           # never between a flag and its value
+            pos += 1
+        argv = SL_MIN_ARGV[:pos] + merged + SL_MIN_ARGV[pos:]
+        out.append([argv, [[f, b''] for f in sorted(set(files))], [dir_specs, libs]])
+    return out
+
+
+def rustc_pick(dir_specs, files, name):
+    for i, (d, kind) in enumerate(dir_specs):
+        if kind in (b'native', b'all', b'-') and (d + b'/lib' + name + b'.a') in files:
+            return i
+    return None
+
+
+def staticlib_problems(case, out):
+    """(class, text) for every `-l static[:modifiers]=NAME` whose archive (rustc's pick) is not among the hashed files"""
+    res = []
+    if not isinstance(out, list) or not out or out[0] != b'ok':
+        return res
+    dir_specs, libs = case[2]
+    files = set(f[0] for f in case[1])
+    hashed = [components(p) for p in out[5]]
+    for kind, nm in libs:
+        if not (kind == b'static' or kind.startswith(b'static:')):
+            continue
+        idx = rustc_pick(dir_specs, files, nm)
+        if idx is None:
+            continue
+        d = dir_specs[idx][0]
+        want = components(VCWD + b'/' + d + b'/lib' + nm + b'.a')
+        if want in hashed:
+            continue
+        # (a kind with modifiers, `static:+whole-archive`, is looked up like `static` since the fix of C05-S24)
+        # a directory at or before rustc's pick holds NAME.lib / NAME.a and THAT file was hashed instead
+        alts = [components(VCWD + b'/' + dd + b'/' + nm + ext) for dd, kk in dir_specs[:idx + 1]
+                if kk in (b'native', b'all', b'-') for ext in (b'.lib', b'.a') if (dd + b'/' + nm + ext) in files]
+        cls = 'C05-S23' if any(a in hashed for a in alts) else None
+        res.append((cls, 'rustc bundles %s/lib%s.a for `-l %s=%s` (first -L native/all directory in command-line order %r) but the files hashed '
+                         'are %r' % (d.decode(), nm.decode(), kind.decode(), nm.decode(), [x[0] for x in dir_specs], out[5])))
+    return res
+
+
+def mon_staticlib(case, out):
+    return mon_args(case[:2], out) + [t for _, t in staticlib_problems(case, out)]
+
+
+def classify_staticlib(case, out, v):
+    for cls, t in staticlib_problems(case, out):
+        if t == v:
+            return cls
+    return None
+
+
 # ------------------------------------------------------------------------------------------------ key / keypair
 
 CONTENTS = [b'', b'pub fn f() {}\n', b'pub fn f() { }\n', b'mod a;\n', b'x', b'{"llvm-target": "x"}', b'{"llvm-target": "y"}',
@@ -383,6 +486,35 @@ def vfile(rel, content):
     return [rel, content, d, [ad] if ad else []]
 
 
+ENVDEP_NAMES = [b'VV', b'OUT_DIR', b'CARGO_PKG_NAME', b'CARGO_MANIFEST_DIR', b'CARGO_REGISTRIES_MIRROR_INDEX', b'CARGO_REGISTRIES_X_TOKEN',
+                b'CARGO_MAKEFLAGS', b'CARGO_MAKEFLAGS_X', b'CARGO_', b'CARGO', b'RUSTC_COLOR', b'cargo_lower']
+
+# (class, first, second, may the key stay the same when they are swapped?)
+ARG_PERMS = [
+    ('lint-short', [b'-D', b'unused_variables'], [b'-A', b'unused_variables'], False),
+    ('lint-short', [b'-W', b'unused'], [b'-A', b'unused_variables'], False),
+    ('lint-short', [b'-F', b'x'], [b'-W', b'y'], False),
+    ('lint-joined', [b'-Dwarnings'], [b'-Awarnings'], False),
+    ('lint-long', [b'--deny', b'unused_variables'], [b'--allow', b'unused_variables'], False),
+    ('lint-long', [b'--warn=unused'], [b'--forbid=unsafe_code'], False),
+    ('lint-mixed', [b'--deny', b'x'], [b'-A', b'x'], False),
+    ('cap-lints', [b'--cap-lints', b'allow'], [b'--cap-lints', b'warn'], False),
+    ('codegen', [b'-C', b'debuginfo=1'], [b'-C', b'debuginfo=2'], False),
+    ('codegen', [b'-C', b'panic=abort'], [b'-C', b'codegen-units=1'], False),
+    ('codegen-long', [b'--codegen', b'lto=off'], [b'-C', b'lto=thin'], False),
+    ('unstable', [b'-Z', b'a'], [b'-Z', b'b'], False),
+    ('unknown-flag', [b'--edition=2018'], [b'--edition=2021'], False),
+    ('error-format', [b'--error-format=json'], [b'--json=artifacts'], False),
+    ('remap', [b'--remap-path-prefix', b'/a=/b'], [b'--remap-path-prefix', b'/a=/c'], False),
+    ('check-cfg', [b'--check-cfg', b'cfg(a)'], [b'--check-cfg', b'cfg(b)'], False),
+    ('link-lib', [b'-l', b'dylib=z'], [b'-l', b'dylib=y'], False),
+    ('cfg-vs-lint', [b'--cfg', b'q'], [b'-A', b'q'], True),
+    ('cfg', [b'--cfg', b'p'], [b'--cfg', b'q'], True),
+    ('cfg', [b'--cfg=p'], [b'--cfg', b'feature="z"'], True),
+    ('L', [b'-L', b'dependency=d1'], [b'-L', b'dependency=d2'], True),
+]
+
+
 def base_request(rng):
     """a cacheable request: (argv, files, depinfo, env, shlibs, version, filenames) as python data"""
     src = [b'src/lib.rs', b'src/a.rs', b'src/sp ace.rs', b'data/d.txt']
@@ -401,9 +533,16 @@ def base_request(rng):
         if rng.chance(1, 2):
             files[b'deps/libbaz.rlib'] = b'rlib-v2'
             argv += [b'--extern', b'baz=deps/libbaz.rlib']
+    two_dirs = False
     if rng.chance(1, 3):
         files[b'libs/libnat.a'] = ARCHIVES[0]
         argv += [b'-L', b'native=libs', b'-l', b'static=nat']
+    elif rng.chance(1, 2):
+        # the same library in two search directories, named in an order that is not the sorted one
+        two_dirs = True
+        files[b'zz_own/libnat.a'] = ARCHIVES[0]
+        files[b'aa_fallback/libnat.a'] = ARCHIVES[2]
+        argv += [b'-l', b'static=nat', b'-L', b'native=zz_own', b'-L', rng.choice([b'native=aa_fallback', b'aa_fallback', b'all=aa_fallback'])]
     if rng.chance(1, 4):
         files[b'spec.json'] = CONTENTS[5]
         argv += [b'--target', b'spec.json']
@@ -421,7 +560,7 @@ def base_request(rng):
             'shlibs': [digests()[b'x'][0]] if rng.chance(2, 3) else [digests()[b'x'][0], digests()[b''][0]],
             'version': b'rustc 1.95.0 (59807616e 2026-04-14)\nbinary: rustc\nhost: x86_64-unknown-linux-gnu\n',
             'filenames': [b'libfoo-abc.rlib'] if b'-C' in argv and b'extra-filename=-abc' in argv else [b'libfoo.rlib'],
-            'depfail': False}
+            'depfail': False, 'two_dirs': two_dirs}
 
 
 def encode_request(r):
@@ -442,8 +581,11 @@ def mutate(rng, r):
              'out_dir', 'envdep_unset_empty', 'envdep_value', 'add_source', 'arg_split', 'crate_name', 'env_perm', 'color', 'rustc_color']
     if b'--extern' in argv:
         kinds += ['extern_content', 'extern_perm', 'l_path']
-    if b'static=nat' in argv:
+    if b'static=nat' in argv and not r.get('two_dirs'):
         kinds += ['static_content']
+    if r.get('two_dirs'):
+        kinds += ['static_picked_content', 'static_picked_content', 'static_shadowed_content', 'static_dirs_swap', 'static_dirs_swap']
+    kinds += ['envdep_class'] * 4 + ['arg_perm'] * 4
     if b'spec.json' in argv:
         kinds += ['target_content']
     k = rng.choice(kinds)
@@ -522,6 +664,32 @@ def mutate(rng, r):
         exp = 'same'
     elif k == 'static_content':
         m['files'][b'libs/libnat.a'] = ARCHIVES[1]
+    elif k == 'static_picked_content':
+        # the archive in the directory named FIRST on the command line is the one rustc bundles
+        m['files'][b'zz_own/libnat.a'] = ARCHIVES[1]
+    elif k == 'static_shadowed_content':
+        m['files'][b'aa_fallback/libnat.a'] = ARCHIVES[1]
+        exp = None                      # rustc does not read it: no claim
+    elif k == 'static_dirs_swap':
+        i = argv.index(b'native=zz_own')
+        argv[i], argv[i + 2] = argv[i + 2], argv[i]
+    elif k == 'envdep_class':
+        # a variable the crate reads through env!/option_env!, of every name class, changes: unset / empty / value
+        name = rng.choice(ENVDEP_NAMES)
+        v0, v1 = rng.choice([(None, b''), (None, b'v'), (b'', b'v'), (b'v', b'w'), (b'v', None), (b'', None)])
+        r0 = clone(r)
+        for req, val in ((r0, v0), (m, v1)):
+            req['envdeps'] = [e for e in req['envdeps'] if e[0] != name] + [(name, val)]
+            req['env'] = [kv for kv in req['env'] if kv[0] != name] + ([[name, val]] if val is not None else [])
+        return 'envdep_class:' + name.decode(), exp, r0, m
+    elif k == 'arg_perm':
+        # two hashed arguments in swapped order: only --cfg (and the unhashed --extern / -L) may keep the key
+        cls, a, b, same = rng.choice(ARG_PERMS)
+        r0 = clone(r)
+        pos = rng.choice([len(argv), argv.index(b'--out-dir')])
+        r0['argv'] = argv[:pos] + a + b + argv[pos:]
+        m['argv'] = argv[:pos] + b + a + argv[pos:]
+        return 'arg_perm:' + cls, ('same' if same else 'diff'), r0, m
     elif k == 'target_content':
         m['files'][b'spec.json'] = CONTENTS[6]
     return k, exp, r, m
@@ -590,7 +758,7 @@ def mon_keypair(case, out):
 
 
 def stats_keypair(case, out):
-    ks = ['mut=' + case[2][0].decode()]
+    ks = ['mut=' + case[2][0].decode().split(':')[0]]
     try:
         ks.append('a=' + out[1][0].decode())
         ks.append('same=%d' % out[0])
@@ -709,6 +877,13 @@ def legs(tier):
             nontrivial=lambda c, o: True,
             rule='a cargo-style command line, every snippet of a 100-entry list appended / prepended, and random add/drop/swap/dup '
                  'mutants and short random command lines; static-library lookup against generated directories'),
+        Leg('staticlib', lambda rng, t: gen_staticlib(rng, 40000 if big else 2500), monitor=mon_staticlib, classify=classify_staticlib,
+            model_leg='args', impl_args=['args'], stats=stats_args,
+            nontrivial=lambda c, o: isinstance(o, list) and o[:1] == [b'ok'] and len(o[5]) >= 1,
+            rule='the real parse_arguments on real directories: 1-4 -L directories (kinds native/all/plain/dependency/crate/framework, '
+                 'names whose command-line order differs from their sorted order, repeats) holding libNAME.a (and NAME.lib / NAME.a) for two '
+                 'names in random subsets, -l static= / static:+modifiers= / dylib in any interleaving; the monitor demands that the archive '
+                 'rustc bundles (first native/all directory in command-line order) is among the hashed files; non-trivial = a library was found'),
         Leg('key', lambda rng, t: gen_key(rng, 20000 if big else 500), monitor=mon_key, stats=stats_key,
             nontrivial=lambda c, o: isinstance(o, list) and o[:1] == [b'ok'],
             rule='requests through the real Rust::parse_arguments + generate_hash_key with a mocked rustc (dep-info text, file names) and real '
@@ -736,12 +911,12 @@ def search_on_impl(rep, known):
     from ..prng import Rng
     exe = pipeline.harness_bin(HARNESS_BIN)
     for leg in legs(rep.tier):
-        if leg.name not in ('envdep', 'depinfo', 'keypair', 'args', 'key'):
+        if leg.name not in ('envdep', 'depinfo', 'keypair', 'args', 'key', 'staticlib'):
             continue
         rng = Rng(rep.seed).fork(ID + ':' + leg.name)
         cases = pipeline.corpus_cases(ID, leg.name) + list(leg.gen(rng, rep.tier))
         try:
-            outs = pipeline.run_sharded([exe, leg.name], [sx.dumps(c) for c in cases])
+            outs = pipeline.run_sharded([exe] + leg.impl_args, [sx.dumps(c) for c in cases])
         except Exception as e:
             rep.notes.append('search on the implementation failed for leg %s: %r' % (leg.name, e))
             continue
@@ -869,22 +1044,34 @@ def real_depinfo(rep, results):
 def model_prediction(rep, results):
     """the extracted model's key pre-image for every e2e step (real dep-info text, real file digests) predicts hit/miss"""
     contents = {}
+    ardig = {}
     for r in results:
         for st in r['steps']:
             for k, v in st['files'].items():
                 contents[v.encode()] = None
             contents[st['dep_bytes']] = None
+            for k, v in st.get('archives', {}).items():
+                contents[v] = None
+                ardig[v] = None
     exe = pipeline.harness_bin(HARNESS_BIN)
     items = list(contents)
     p = subprocess.run([exe, 'digest'], input=('\n'.join(sx.dumps([c, 0]) for c in items) + '\n').encode(), stdout=subprocess.PIPE, timeout=600)
     for c, o in zip(items, p.stdout.decode().split('\n')):
         r0 = sx.loads(o)
         contents[c] = r0[0] if r0 else b''
+    items = list(ardig)
+    if items:
+        p = subprocess.run([exe, 'digest'], input=('\n'.join(sx.dumps([c, 1]) for c in items) + '\n').encode(), stdout=subprocess.PIPE, timeout=600)
+        for c, o in zip(items, p.stdout.decode().split('\n')):
+            r0 = sx.loads(o)
+            ardig[c] = r0[0] if r0 else b''
     cases, idx = [], []
     for hi, r in enumerate(results):
         for si, st in enumerate(r['steps']):
             files = [[k.encode(), b'', contents[v.encode()], []] for k, v in sorted(st['files'].items())]
             files.append([b'deps/libdep.rlib', b'', contents[st['dep_bytes']], []])
+            for k, v in sorted(st.get('archives', {}).items()):
+                files.append([k.encode(), b'', contents[v], [ardig[v]]])
             env = [[k.encode(), v.encode()] for k, v in sorted(st['env'].items())]
             cases.append([[a.encode() for a in st['argv']], files, [st['depinfo']] if st['depinfo'] else [], env, [], b'rustc', []])
             idx.append((hi, si))
